@@ -9,9 +9,9 @@ from engine.symutil import Verdict, untraced
 from harness.common import Producer, run_schedule, drain, pre_schedule, Pruned
 
 META = {
-    "bounds": {"quick": "schedules of <= 6 steps over {arrival, complete oldest consumer job}, <= 5 arrivals; "
+    "bounds": {"quick": "schedules of <= 9 steps over {arrival, complete oldest consumer job}, <= 8 arrivals; "
                         "tornado-future and native-coroutine consumers",
-               "thorough": "schedules of <= 9 steps, <= 7 arrivals"},
+               "thorough": "schedules of <= 12 steps, <= 11 arrivals"},
     "outside": ["several event loops", "pre-emptive threads"],
     "stubs": ["event loop: engine/vloop.py"],
     "assumptions": ["callbacks made ready in one loop iteration run FIFO (asyncio semantics)"],
@@ -19,12 +19,19 @@ META = {
 
 
 def pre(shard, *choices):
-    return pre_schedule(choices, (0, 2, 9))
+    return True
 
 
 def body(shard, *choices):
-    vd = Verdict()
+    # only the schedule is symbolic; it is decided lazily by solver forks inside
+    # run_schedule, everything else is concrete and runs untraced
     with untraced():
+        return _body(shard, *choices)
+
+
+def _body(shard, *choices):
+    vd = Verdict()
+    if True:
         from streamz import Stream
         world = World()
         source = Stream(asynchronous=True)
@@ -34,7 +41,7 @@ def body(shard, *choices):
     try:
         world.loop.run_ready()
         try:
-            run_schedule(world, choices, [prod])
+            run_schedule(world, choices, [prod], allowed=(0, 2, 9))
         except Pruned:
             return ""
         # input stops here; let the consumer become free
@@ -59,8 +66,8 @@ def body(shard, *choices):
 
 
 def obligations(tier):
-    steps = 6 if tier == "quick" else 9
-    n = 5 if tier == "quick" else 7
+    steps = 9 if tier == "quick" else 12
+    n = 8 if tier == "quick" else 11
     obls = []
     for native in (False, True):
         obls.append({"name": "latest/steps=%d/%s" % (steps, "native" if native else "future"),
